@@ -1,7 +1,8 @@
 #!/bin/bash
 # Build the overlay venv used by all checks (offline).
 set -e
-V=/verif/.venv
+D=$(cd "$(dirname "$0")/.." && pwd)
+V="${VERIF_VENV:-$D/.venv}"
 if [ -x "$V/bin/python" ] && "$V/bin/python" -c 'import z3, crosshair, cvc5, aldy' 2>/dev/null; then
   exit 0
 fi
